@@ -559,7 +559,12 @@ impl<T: ?Sized, B: Unpin + Borrow<Mutex<T>>> EventListenerFuture for AcquireSlow
                         .unwrap_or_else(|x| x)
                     {
                         // Lock acquired!
-                        0 => return Poll::Ready(self.take_mutex().unwrap()),
+                        0 => {
+                            // Drop the listener we just registered: a completed future that is
+                            // kept alive must not stay in the queue and swallow a notification.
+                            *this.listener = None;
+                            return Poll::Ready(self.take_mutex().unwrap());
+                        }
 
                         // Lock is held and nobody is starved.
                         1 => {}
@@ -629,7 +634,11 @@ impl<T: ?Sized, B: Unpin + Borrow<Mutex<T>>> EventListenerFuture for AcquireSlow
                     .unwrap_or_else(|x| x)
                 {
                     // Lock acquired!
-                    2 => return Poll::Ready(self.take_mutex().unwrap()),
+                    2 => {
+                        // As above: do not leave the listener we just registered in the queue.
+                        *this.listener = None;
+                        return Poll::Ready(self.take_mutex().unwrap());
+                    }
 
                     // Lock is held by someone.
                     s if s % 2 == 1 => {}
